@@ -1,0 +1,37 @@
+//go:build verif
+
+// Contracts for the verifier in /verif (comment-only file; compiled only with -tags verif).
+// Randomized fingerprints: property C09 (generateRandomizedSpec and its helpers) and the shuffle
+// part of C03 (ShuffleChromeTLSExtensions).
+
+package tls
+
+// ---------------------------------------------------------------------------------------------
+// C09: cipher list helpers.
+
+//@ spec isRC4(x) = x == TLS_ECDHE_ECDSA_WITH_RC4_128_SHA || x == TLS_ECDHE_RSA_WITH_RC4_128_SHA || x == TLS_RSA_WITH_RC4_128_SHA
+
+// removeRC4Ciphers deletes in place.  The result is exactly the subsequence of the input without the
+// three RC4 ids: for EVERY counting function rc4cnt with rc4cnt(0) == 0 and rc4cnt(k+1) == rc4cnt(k) +
+// (0 if s[k] is RC4 else 1) (rc4Walk: rc4cnt(k) = number of kept elements among the first k), the
+// result has rc4cnt(n) elements and the kept element k of the input is element rc4cnt(k) of the result.
+//@ uf rc4cnt(Int) Int
+//@ spec rc4Walk(s, n) = rc4cnt(0) == 0 && forall k in 0..n: rc4cnt(k+1) == rc4cnt(k) + ite(isRC4(s[k]), 0, 1)
+//@ func removeRC4Ciphers
+//@   property C09
+//@   let n = len(s)
+//@   let s0 = s
+//@   modifies s[0..len(s)]
+//@   ensures header: arr(ret) == arr(s) && off(ret) == off(s) && len(ret) <= n
+//@   ensures norc4: forall j in 0..len(ret): !isRC4(ret[j])
+//@   ensures member: forall j in 0..len(ret): exists k in j..n: ret[j] == old(s[k])
+//@   ensures sub_len: old(rc4Walk(s, n)) ==> len(ret) == rc4cnt(n)
+//@   ensures sub_elems: old(rc4Walk(s, n)) ==> forall k in 0..n: !isRC4(old(s[k])) ==> ret[rc4cnt(k)] == old(s[k])
+//@   loop 0 invariant arr(s) == arr(s0) && off(s) == off(s0) && cap(s) == cap(s0) && len(s) == sliceLen
+//@   loop 0 invariant 0 <= i && i <= sliceLen && sliceLen <= n
+//@   loop 0 invariant forall j in i..sliceLen: s[j] == old(s0[j + n - sliceLen])
+//@   loop 0 invariant forall j in 0..i: !isRC4(s[j])
+//@   loop 0 invariant old(rc4Walk(s0, n)) ==> rc4cnt(i + n - sliceLen) == i
+//@   loop 0 invariant old(rc4Walk(s0, n)) ==> forall k in 0..i+n-sliceLen: !isRC4(old(s0[k])) ==> 0 <= rc4cnt(k) && rc4cnt(k) < i
+//@   loop 0 invariant old(rc4Walk(s0, n)) ==> forall j in 0..i: forall k in 0..i+n-sliceLen: !isRC4(old(s0[k])) && rc4cnt(k) == j ==> s[j] == old(s0[k])
+//@   loop 0 invariant forall j in 0..i: exists k in j..i+n-sliceLen: s[j] == old(s0[k])
